@@ -261,6 +261,14 @@ def run(ctx):
             meta.append({'config': name, 'fine': fine, 'choices': obs['taken'] if len(obs['taken']) < 80 else
                          obs['model_sched'], 'cfg': cfg})
 
+    # the keep-alive really is "one more thread calling _get_device_id on the same interface"
+    try:
+        tie_ok, tie = S.keepalive_tie()
+    except Exception as e:  # noqa
+        tie_ok, tie = False, {'exception': repr(e)}
+    res.extra['keepalive_tie'] = dict(tie, ok=tie_ok)
+    tie_mismatch = [] if tie_ok else [{'case': 'establish_session -> call_repeatedly(keep_alive_interval, '
+                                               'self._get_device_id) not observed', 'observed': tie}]
     bound = 2 if q else 3
     per_cfg = {}
     for name, cfg in configs(q):
@@ -283,7 +291,7 @@ def run(ctx):
         obs = S.run_schedule(cfg, ch, fine=True)
         consider(name + '/line', cfg, obs, True, 'random, source-line granularity')
     failing, errors = C.coq_cases('C14', 'Corr.C14 Model.Threads', terms)
-    res.mismatches = [{'case': meta[i], 'term': terms[i][:1500]} for i in failing[:20]]
+    res.mismatches = tie_mismatch + [{'case': meta[i], 'term': terms[i][:1500]} for i in failing[:20]]
     res.corr_errors = errors
     res.evaluations = nruns
     res.distinct_nontrivial = D.distinct
